@@ -14,6 +14,8 @@ switch { case err != nil: arm RetryInterval
          case queueSize == 0: arm maxTimerDuration
          default: arm calculateNextTick() }     -- Head() error, ErrQueueEmpty included: RetryInterval
 select { case <-timer.C: if err := executeAndReschedule(ctx); err != nil { retryAt = time.Now().Add(RetryInterval) }
+                          -- err: the Pop() error or the Push() error; an empty Pop() counts as an error unless
+                          -- Size(), asked again under the queue lock, answers 0
          case <-interrupt: (nothing) }
 ```
 The shape of the `switch`, of `calculateNextTick` and of the error plumbing of `fetchAndReschedule` is a parameter
@@ -59,6 +61,17 @@ inductive Backoff where
   | deadline
 deriving DecidableEq, Repr
 
+/-- what `fetchAndReschedule` does when `Pop()` answers `ErrQueueEmpty` -/
+inductive PopEmpty where
+  /-- returns `nil` (the code before 78e46a3: a queue with a due head and nothing to pop makes the loop spin) -/
+  | nil
+  /-- returns the error, always (78e46a3: an honestly empty queue is polled for ever) -/
+  | returned
+  /-- asks `Size()` under the queue lock: `nil` if it answers 0, the error if the queue still claims to hold jobs or
+      cannot say (the source now) -/
+  | unlessSizeZero
+deriving DecidableEq, Repr
+
 /-- shape of the loop's error handling (facts of the source) -/
 structure Shape where
   /-- `case err != nil:` (the `Size()` error) -/
@@ -81,8 +94,8 @@ structure Shape where
   stateFromTick : Bool
   /-- `fetchAndReschedule` returns the `Pop()` error … -/
   popErrReturned : Bool
-  /-- … but `nil` for `ErrQueueEmpty` -/
-  popEmptyNil : Bool
+  /-- … and what it does when `Pop()` answers `ErrQueueEmpty` -/
+  popEmpty : PopEmpty
   /-- `fetchAndReschedule` returns the `Push()` error -/
   pushErrReturned : Bool
 
@@ -123,6 +136,8 @@ structure In where
   tickAt : Int
   /-- `queue.Pop()` (consulted only on a tick) -/
   pop : Res Entry
+  /-- `queue.Size()` asked by `fetchAndReschedule` after an empty `Pop()` (`none` = error) -/
+  size2 : Option Nat
   /-- the clock read by `validateJob` -/
   nowVal : Int
   /-- `queue.Push()` of the rescheduled entry succeeds (consulted only if there is a push) -/
@@ -208,7 +223,13 @@ structure Fetch where
 def fetch (S : Shape) (c : Cfg) (trig : Trig) (i : In) : Fetch :=
   match i.pop with
   | .err => ⟨[(.pop, .err)], none, none, none, true, S.popErrReturned⟩
-  | .empty => ⟨[(.pop, .empty)], none, none, none, false, !S.popEmptyNil⟩
+  | .empty =>
+    match S.popEmpty with
+    | .nil => ⟨[(.pop, .empty)], none, none, none, false, false⟩
+    | .returned => ⟨[(.pop, .empty)], none, none, none, false, true⟩
+    | .unlessSizeZero =>
+      ⟨[(.pop, .empty), (.size, if i.size2.isSome then .ok else .err)], none, none, none, false,
+        !decide (i.size2 = some 0)⟩
   | .ok e =>
     let v := validate c trig e i.nowVal
     let disp := if v.1 then some e else none
@@ -275,7 +296,7 @@ instance decWellTimed (S : Shape) (c : Cfg) (trig : Trig) :
 def WF (S : Shape) : Prop :=
   S.onSizeErr = .retry ∧ S.backoff = .deadline ∧ S.onBackoff = .untilRetry ∧ S.onEmpty = .max ∧
   S.onDefault = .nextTick ∧ S.headErr = .retry ∧ S.headEmpty = .retry ∧ S.stateFromTick = true ∧
-  S.popErrReturned = true ∧ S.popEmptyNil = true ∧ S.pushErrReturned = true
+  S.popErrReturned = true ∧ S.popEmpty = .unlessSizeZero ∧ S.pushErrReturned = true
 
 instance (S : Shape) : Decidable (WF S) := by unfold WF; infer_instance
 
@@ -285,6 +306,14 @@ def plain (S : Shape) : Shape := { S with backoff := .none }
 /-- `calculateNextTick` as it was before its repair: the zero duration when `Head()` returns `ErrQueueEmpty`
     (a negative control: a queue that reports a size but has no head makes the loop spin) -/
 def zeroOnEmptyHead (S : Shape) : Shape := { S with headEmpty := .zero }
+
+/-- `fetchAndReschedule` as it was before its repair: `nil` when `Pop()` returns `ErrQueueEmpty`
+    (a negative control: a queue that has a size and a due head but nothing to pop makes the loop spin) -/
+def nilOnEmptyPop (S : Shape) : Shape := { S with popEmpty := .nil }
+
+/-- `fetchAndReschedule` as it was after 78e46a3: every empty `Pop()` is returned as an error, also the one of an
+    honestly empty queue (a negative control: the empty queue is polled for ever) -/
+def alwaysOnEmptyPop (S : Shape) : Shape := { S with popEmpty := .returned }
 
 /-- the loop after the first repair (`failed` flag, full `RetryInterval` in every iteration): a negative control -/
 def flagVariant (S : Shape) : Shape := { S with backoff := .flag, onBackoff := .retry }
@@ -304,6 +333,7 @@ structure Plan where
   fHead : Bool := false
   fPop : Bool := false
   fPush : Bool := false
+  fSize2 : Bool := false
   interrupted : Bool := false
   now1 : Int
   now2 : Int
@@ -316,7 +346,7 @@ deriving Repr
 /-- a plan all of whose clock readings are `t` -/
 def Plan.at (t : Int) : Plan := { now1 := t, now2 := t, tArm := t, tickAt := t, nowVal := t, nowErr := t }
 
-def Plan.faultFree (p : Plan) : Bool := !p.fSize && !p.fHead && !p.fPop && !p.fPush
+def Plan.faultFree (p : Plan) : Bool := !p.fSize && !p.fHead && !p.fPop && !p.fPush && !p.fSize2
 
 /-- the call results a fault-wrapped queue holding `q` produces -/
 def inOf (q : Queue) (p : Plan) : In where
@@ -328,6 +358,7 @@ def inOf (q : Queue) (p : Plan) : In where
   interrupted := p.interrupted
   tickAt := p.tickAt
   pop := if p.fPop then .err else match q with | [] => .empty | e :: _ => .ok e
+  size2 := if p.fSize2 then none else some q.length
   nowVal := p.nowVal
   pushOk := !p.fPush
   nowErr := p.nowErr
